@@ -5,6 +5,10 @@ Import ListNotations.
 Local Open Scope R_scope.
 
 Ltac rn := cbv [q] in *; rnum.
+(* name an opaque model term as a plain real variable (lra / field want atoms of syntactic type R) *)
+Ltac asR t v := let H := fresh "E" in
+  assert (H : exists v' : R, v' = t) by (eexists; reflexivity); destruct H as [v H]; rewrite <- ?H in *; clear H.
+Ltac tuple_eq := repeat match goal with |- (_, _) = (_, _) => apply f_equal2 end.
 (* decide the boolean comparisons of the real instance from the linear facts in context *)
 Ltac rdec :=
   repeat match goal with
@@ -13,9 +17,17 @@ Ltac rdec :=
   | |- context [Reqb ?a ?b] => let H := fresh "D" in unfold Reqb at 1; destruct (Req_EM_T a b) as [H | H]; try (exfalso; lra)
   end.
 
+(* evaluate comparisons / absolute values of concrete rationals, innermost first *)
+Ltac rsolve := repeat (match goal with
+  | |- context [Rleb ?a ?b] => first [rewrite (proj2 (Rleb_true a b)) by lra | rewrite (proj2 (Rleb_false a b)) by lra]
+  | |- context [Rltb ?a ?b] => first [rewrite (proj2 (Rltb_true a b)) by lra | rewrite (proj2 (Rltb_false a b)) by lra]
+  | |- context [Reqb ?a ?b] => first [rewrite (proj2 (Reqb_true a b)) by lra | rewrite (proj2 (Reqb_false a b)) by lra]
+  | |- context [Rabs ?a] => first [rewrite (Rabs_right a) by lra | rewrite (Rabs_left a) by lra]
+  end; cbv iota).
+
 Definition tm := @tmv RNum.
-Implicit Types k e a c x y ff P Ta M z PSL TSL n f1 f2 xe s blf ble h t hc sn bpr cbc bp ref P3 P3ref : R.
-Implicit Types ref_num ref_mass vmax pr hmax hp F fsc eps b x0 y0 fA : R.
+Implicit Types k e a c x y ff P Ta M z PSL TSL n f xe s blf ble h t hc sn bpr cbc bp ref : R.
+Implicit Types ref_num ref_mass vmax pr hmax hp F fsc eps b fA : R.
 Definition tshift (c : R) (v : tm) : tm := @tmap RNum (fun y => y + c) v.
 Definition tscale (k : R) (v : tm) : tm := @tmap RNum (fun y => k * y) v.
 Definition tpos (v : tm) : Prop := let '(a, b, c, d) := v in 0 < a /\ 0 < b /\ 0 < c /\ 0 < d.
@@ -23,18 +35,18 @@ Definition tpos (v : tm) : Prop := let '(a, b, c, d) := v in 0 < a /\ 0 < b /\ 0
 (* ------------------------------------------------------------------------------------------------ *)
 (* logarithms and powers of ten                                                                      *)
 (* ------------------------------------------------------------------------------------------------ *)
-Lemma ln_ten_pos : 0 < ln (@ten RNum).
-Proof. unfold ten. rn. rewrite <- ln_1. apply ln_increasing; lra. Qed.
+Lemma ln_ten_pos : 0 < ln (10 / 1).
+Proof. rewrite <- ln_1. apply ln_increasing; lra. Qed.
 
 Lemma log10_mult k e : 0 < k -> 0 < e -> @log10 RNum (k * e) = @log10 RNum k + @log10 RNum e.
-Proof. intros. unfold log10. rnum. rewrite ln_mult by assumption. pose proof ln_ten_pos. field. lra. Qed.
+Proof. intros. unfold log10, ten. rn. rewrite ln_mult by assumption. pose proof ln_ten_pos. field. lra. Qed.
 
 Lemma pow10_plus a c : @pow10 RNum (a + c) = @pow10 RNum a * @pow10 RNum c.
-Proof. unfold pow10. rnum. rewrite <- exp_plus. f_equal. ring. Qed.
+Proof. unfold pow10, ten. rn. rewrite <- exp_plus. f_equal. ring. Qed.
 
 Lemma pow10_log10 k : 0 < k -> @pow10 RNum (@log10 RNum k) = k.
-Proof. intros. unfold pow10, log10. rnum. pose proof ln_ten_pos.
-  replace (ln k / ln ten * ln ten) with (ln k) by (field; lra). apply exp_ln; assumption. Qed.
+Proof. intros. unfold pow10, log10, ten. rn. pose proof ln_ten_pos.
+  replace (ln k / ln (10 / 1) * ln (10 / 1)) with (ln k) by (field; lra). apply exp_ln; assumption. Qed.
 
 Lemma pow10_pos y : 0 < @pow10 RNum y.
 Proof. unfold pow10. rnum. apply exp_pos. Qed.
@@ -45,7 +57,8 @@ Proof. rnum. apply exp_pos. Qed.
 Lemma tmap_log10_scale k v : 0 < k -> tpos v ->
   @tmap RNum (@log10 RNum) (tscale k v) = tshift (@log10 RNum k) (@tmap RNum (@log10 RNum) v).
 Proof. destruct v as [[[a b] c] d]. intros Hk (Ha & Hb & Hc & Hd). unfold tscale, tshift, tmap.
-  rewrite !log10_mult by assumption. repeat f_equal; ring. Qed.
+  rewrite !log10_mult by assumption.
+  apply f_equal2; [apply f_equal2; [apply f_equal2 | ] | ]; apply Rplus_comm. Qed.
 
 (* ------------------------------------------------------------------------------------------------ *)
 (* Fuel Flow Method 2                                                                                 *)
@@ -113,10 +126,7 @@ Lemma ls_fit_shift c (x y : tm) :
   @ls_fit RNum x (tshift c y) = (fst (@ls_fit RNum x y), snd (@ls_fit RNum x y) + c).
 Proof. unfold ls_fit. rewrite mean4_shift.
   destruct x as [[[x1 x2] x3] x4], y as [[[y1 y2] y3] y4]. unfold tshift, tmap. simpl.
-  set (xb := @mean4 RNum (x1, x2, x3, x4)). set (yb := @mean4 RNum (y1, y2, y3, y4)). rnum.
-  replace (y1 + c - (yb + c)) with (y1 - yb) by ring. replace (y2 + c - (yb + c)) with (y2 - yb) by ring.
-  replace (y3 + c - (yb + c)) with (y3 - yb) by ring. replace (y4 + c - (yb + c)) with (y4 - yb) by ring.
-  f_equal. ring. Qed.
+  rn. apply f_equal2; unfold Rdiv; ring. Qed.
 
 Lemma ls_fit_flat_shift c (x y : tm) :
   @ls_fit_v RNum DegFlat x (tshift c y) = (fst (@ls_fit_v RNum DegFlat x y), snd (@ls_fit_v RNum DegFlat x y) + c).
@@ -142,7 +152,7 @@ Lemma bffm2_nox_sl_scales k ff (ei cal : tm) : 0 < k -> tpos ei ->
   @bffm2_nox_sl RNum ff (tscale k ei) cal = k * @bffm2_nox_sl RNum ff ei cal.
 Proof. intros Hk Hei. unfold bffm2_nox_sl, bffm2_nox_sl_v. fold (@nox_line_log RNum).
   rewrite tmap_log10_scale by assumption. rewrite nox_line_log_shift, pow10_plus, pow10_log10 by assumption.
-  ring. Qed.
+  rnum. ring. Qed.
 
 Lemma bffm2_nox_scales k ff (ei cal : tm) Ta P : 0 < k -> tpos ei ->
   @bffm2_nox RNum ff (tscale k ei) cal Ta P =
@@ -150,7 +160,7 @@ Lemma bffm2_nox_scales k ff (ei cal : tm) Ta P : 0 < k -> tpos ei ->
   (k * nox, k * no, k * no2, k * hono, pno, pno2, phono).
 Proof. intros Hk Hei. unfold bffm2_nox, bffm2_nox_v. fold (@bffm2_nox_sl RNum).
   rewrite bffm2_nox_sl_scales by assumption.
-  destruct (@speciation RNum _) as [[pno pno2] phono]. rnum. repeat f_equal; ring. Qed.
+  destruct (@speciation RNum _) as [[pno pno2] phono]. rnum. tuple_eq; try reflexivity; ring. Qed.
 
 Lemma nox_ambient_factor_pos Ta P : 0 < @nox_ambient_factor RNum Ta P.
 Proof. unfold nox_ambient_factor. apply Rmult_lt_0_compat; [apply exp_pos | apply npow_pos]. Qed.
@@ -180,7 +190,7 @@ Lemma hcco_fit_raw_shift c (lEI lff : tm) :
   let '(s, h, x) := @hcco_fit_raw RNum lEI lff in (s, h + c, x).
 Proof. destruct lEI as [[[eI eA] eC] eT], lff as [[[fI fA] fC] fT]. unfold hcco_fit_raw, tshift, tmap. rn.
   replace (eA + c - (eI + c)) with (eA - eI) by ring.
-  set (s := if @isclose0 RNum _ then _ else _).
+  match goal with |- context [if ?b then 0 else ?e] => set (s := if b then 0 else e) end.
   replace (IZR 2 / IZR 1 * fI * s + (eC + c) + (eT + c) - IZR 2 / IZR 1 * (eI + c))
      with (IZR 2 / IZR 1 * fI * s + eC + eT - IZR 2 / IZR 1 * eI) by lra.
   f_equal. f_equal. lra. Qed.
@@ -195,17 +205,17 @@ Lemma hcco_fit_log_shift c (lEI lff : tm) :
 Proof. unfold hcco_fit_log. rewrite hcco_rule_shift, hcco_fit_raw_shift.
   destruct (@hcco_fit_raw RNum lEI lff) as [[s h] x].
   destruct lEI as [[[eI eA] eC] eT], lff as [[[fI fA] fC] fT]. unfold tshift, tmap.
-  destruct (@hcco_rule_of RNum _ _); try reflexivity.
-  rn. repeat f_equal; ring. Qed.
+  destruct (@hcco_rule_of RNum _ _); reflexivity. Qed.
 
 Lemma hcco_eval_shift c s blf ble h x ff :
   @hcco_eval RNum (s, blf, ble + c, h + c, x) ff = @pow10 RNum c * @hcco_eval RNum (s, blf, ble, h, x) ff.
 Proof. unfold hcco_eval.
-  destruct (x <=? _)%num.
-  - rewrite pow10_plus. ring.
-  - destruct (zero <? ff)%num.
-    + replace (s * ((@log10 RNum ff) - blf) + (ble + c))%num with ((s * ((@log10 RNum ff) - blf) + ble)%num + c) by (rnum; ring).
-      rewrite pow10_plus. ring.
+  set (lf := if @ltb RNum zero ff then @log10 RNum ff else zero).
+  destruct (@leb RNum x lf).
+  - rewrite pow10_plus. rnum. ring.
+  - destruct (@ltb RNum zero ff).
+    + replace (@add RNum (@mul RNum s (@sub RNum lf blf)) (ble + c)) with ((@add RNum (@mul RNum s (@sub RNum lf blf)) ble) + c) by (rnum; ring).
+      rewrite pow10_plus. rnum. ring.
     + rnum. ring. Qed.
 
 Lemma hcco_sl_scales k ff (ei cal : tm) : 0 < k -> tpos ei ->
@@ -217,33 +227,38 @@ Proof. intros Hk Hei. unfold hcco_sl. rewrite tmap_log10_scale by assumption. re
 Lemma hcco_scales k ff (ei cal : tm) Ta P : 0 < k -> tpos ei ->
   @hcco RNum ff (tscale k ei) cal Ta P = k * @hcco RNum ff ei cal Ta P.
 Proof. intros Hk Hei. unfold hcco. rewrite hcco_sl_scales by assumption.
-  destruct (ff <? _)%num; rnum; ring. Qed.
+  destruct (@ltb RNum ff _); rnum; ring. Qed.
 
 Lemma hcco_eval_nonneg fit ff : 0 <= @hcco_eval RNum fit ff.
 Proof. destruct fit as [[[[s blf] ble] h] x]. unfold hcco_eval.
-  destruct (x <=? _)%num; [left; apply pow10_pos | ].
-  destruct (zero <? ff)%num; [left; apply pow10_pos | rnum; lra]. Qed.
+  destruct (@leb RNum x _); [left; apply pow10_pos | ].
+  destruct (@ltb RNum zero ff); [left; apply pow10_pos | rnum; lra]. Qed.
+
+Lemma hcco_factors ff (ei cal : tm) Ta P :
+  exists sl fI cr : R, sl = @hcco_sl RNum ff ei cal /\ fI = @tget RNum cal Idle /\ 0 < cr /\
+    @hcco RNum ff ei cal Ta P = (if Rlt_dec ff fI then sl * (1 + 52 * (fI - ff)) else sl) * cr.
+Proof. exists (@hcco_sl RNum ff ei cal), (@tget RNum cal Idle), (@hcco_cruise RNum Ta P).
+  repeat split.
+  - unfold hcco_cruise. rnum. apply Rdiv_lt_0_compat; apply exp_pos.
+  - unfold hcco. rn. unfold Rltb. destruct (Rlt_dec ff _); [ | reflexivity].
+    f_equal. f_equal. lra. Qed.
 
 Lemma hcco_nonneg ff (ei cal : tm) Ta P : 0 <= @hcco RNum ff ei cal Ta P.
-Proof. unfold hcco. pose proof (hcco_eval_nonneg (@hcco_fit_log RNum (@tmap RNum (@log10 RNum) ei) (@tmap RNum (@log10 RNum) cal)) ff) as H0.
-  fold (@hcco_sl RNum ff ei cal) in H0.
-  assert (Hc : 0 < @hcco_cruise RNum Ta P).
-  { unfold hcco_cruise. rnum. apply Rdiv_lt_0_compat; apply exp_pos. }
-  rn. unfold Rltb. destruct (Rlt_dec ff _).
-  - apply Rmult_le_pos; [ | lra]. apply Rmult_le_pos; [assumption | lra].
+Proof. destruct (hcco_factors ff ei cal Ta P) as (sl & fI & cr & Hsl & HfI & Hcr & E). rewrite E.
+  assert (H0 : 0 <= sl) by (subst sl; apply hcco_eval_nonneg).
+  destruct (Rlt_dec ff fI).
+  - apply Rmult_le_pos; [ | lra]. apply Rmult_le_pos; lra.
   - apply Rmult_le_pos; lra. Qed.
 
 (* upper segment and every positive flow under rule (c): strictly positive *)
 Lemma hcco_positive_flow_positive ff (ei cal : tm) Ta P : 0 < ff -> 0 < @hcco RNum ff ei cal Ta P.
-Proof. intros Hff. unfold hcco.
-  assert (H0 : 0 < @hcco_sl RNum ff ei cal).
-  { unfold hcco_sl. destruct (@hcco_fit_log RNum _ _) as [[[[s blf] ble] h] x]. unfold hcco_eval.
-    destruct (x <=? _)%num; [apply pow10_pos | ].
-    replace (zero <? ff)%num with true; [apply pow10_pos | ]. rnum. symmetry. apply Rltb_true. assumption. }
-  assert (Hc : 0 < @hcco_cruise RNum Ta P).
-  { unfold hcco_cruise. rnum. apply Rdiv_lt_0_compat; apply exp_pos. }
-  rn. unfold Rltb. destruct (Rlt_dec ff _).
-  - apply Rmult_lt_0_compat; [ | lra]. apply Rmult_lt_0_compat; [assumption | lra].
+Proof. intros Hff. destruct (hcco_factors ff ei cal Ta P) as (sl & fI & cr & Hsl & HfI & Hcr & E). rewrite E.
+  assert (H0 : 0 < sl).
+  { subst sl. unfold hcco_sl. destruct (@hcco_fit_log RNum _ _) as [[[[s blf] ble] h] x]. unfold hcco_eval.
+    destruct (@leb RNum x _); [apply pow10_pos | ].
+    replace (@ltb RNum zero ff) with true; [apply pow10_pos | ]. rnum. symmetry. apply Rltb_true. assumption. }
+  destruct (Rlt_dec ff fI).
+  - apply Rmult_lt_0_compat; [ | lra]. apply Rmult_lt_0_compat; lra.
   - apply Rmult_lt_0_compat; lra. Qed.
 
 (* --- the documented clamping rules, on the fit in log space (all real values of the logs) --------- *)
@@ -277,54 +292,47 @@ Proof. unfold hcco_fit_log, hcco_rule_of. destruct (@hcco_fit_raw RNum lEI lff) 
 
 (* under rule (c) every positive fuel flow gets the horizontal level *)
 Lemma hcco_flat_everywhere h fA ff : 0 < ff -> @hcco_eval RNum (0, 0, h, h, fA) ff = @pow10 RNum h.
-Proof. intros Hff. unfold hcco_eval. destruct (fA <=? _)%num; [reflexivity | ].
-  replace (zero <? ff)%num with true by (rnum; symmetry; apply Rltb_true; assumption).
+Proof. intros Hff. unfold hcco_eval. destruct (@leb RNum fA _); [reflexivity | ].
+  replace (@ltb RNum zero ff) with true by (rnum; symmetry; apply Rltb_true; assumption).
   f_equal. rnum. ring. Qed.
 
-(* when no rule fires the two segments meet at the breakpoint (the raw intercept) *)
+(* when the slope is not numerically zero the raw breakpoint is where the two segments meet *)
 Lemma hcco_segments_meet (lEI lff : tm) :
   let '(s, h, x) := @hcco_fit_raw RNum lEI lff in
   let '(eI, eA, eC, eT) := lEI in let '(fI, fA, fC, fT) := lff in
-  s < 0 -> s * (x - fI) + eI = h.
+  @isclose0 RNum s = false -> s * (x - fI) + eI = h.
 Proof. destruct lEI as [[[eI eA] eC] eT], lff as [[[fI fA] fC] fT]. unfold hcco_fit_raw.
-  set (s := if @isclose0 RNum _ then _ else _). intros Hs.
-  assert (Hnc : @isclose0 RNum s = false).
-  { unfold isclose0. rn. apply Rleb_false. rewrite Rabs_left by assumption. lra. }
-  rewrite Hnc. rn. field. lra. Qed.
+  match goal with |- context [if @isclose0 RNum ?d then ?z else ?e] => asR (if @isclose0 RNum d then z else e) s end.
+  intros Hnc. rewrite Hnc.
+  assert (Hs : s <> 0).
+  { intro E0. subst s. revert Hnc. unfold isclose0. rn. rewrite Rabs_R0. intro Hc. apply Rleb_false in Hc. lra. }
+  rn. field. lra. Qed.
 
 (* low-thrust (ACRP) rule *)
 Lemma hcco_low_thrust ff (ei cal : tm) Ta P : ff < @tget RNum cal Idle ->
   @hcco RNum ff ei cal Ta P =
   @hcco_sl RNum ff ei cal * (1 + 52 * (@tget RNum cal Idle - ff)) * @hcco_cruise RNum Ta P.
-Proof. intros H. unfold hcco. rn. unfold Rltb. destruct (Rlt_dec ff _); [ | contradiction]. lra. Qed.
+Proof. intros H. unfold hcco. rn. unfold Rltb. destruct (Rlt_dec ff _); [ | contradiction].
+  f_equal. f_equal. lra. Qed.
 
 Lemma hcco_not_low_thrust ff (ei cal : tm) Ta P : @tget RNum cal Idle <= ff ->
   @hcco RNum ff ei cal Ta P = @hcco_sl RNum ff ei cal * @hcco_cruise RNum Ta P.
-Proof. intros H. unfold hcco. rn. unfold Rltb. destruct (Rlt_dec ff _); [lra | reflexivity]. Qed.
+Proof. intros H. unfold hcco. rn. unfold Rltb. destruct (Rlt_dec ff _) as [Hc | Hc]; [ | reflexivity].
+  exfalso. apply (Rlt_irrefl ff). eapply Rlt_le_trans; eassumption. Qed.
 
 (* non-vacuity: each rule is reached (log10 values chosen rational) *)
 Definition ex_lff : tm := (-1, 0, 1, 2).
 Example hcco_rule_none_reached : @hcco_rule_of RNum (2, 1, 0, 0) ex_lff = RuleNone.
-Proof. unfold hcco_rule_of, hcco_fit_raw, isclose0, ex_lff. rn.
-  replace (Rabs (0 - -1)) with 1 by (rewrite Rabs_right; lra). rdec.
-  replace (Rabs ((1 - 2) / (0 - -1))) with 1 by (rewrite Rabs_left; lra). rdec. simpl. rdec; reflexivity. Qed.
+Proof. unfold hcco_rule_of, hcco_fit_raw, isclose0, ex_lff. rn. rsolve. simpl. rsolve. reflexivity. Qed.
 Example hcco_rule_a_reached : @hcco_rule_of RNum (2, 1, -1, -1) ex_lff = RuleClampHigh.
-Proof. unfold hcco_rule_of, hcco_fit_raw, isclose0, ex_lff. rn.
-  replace (Rabs (0 - -1)) with 1 by (rewrite Rabs_right; lra). rdec.
-  replace (Rabs ((1 - 2) / (0 - -1))) with 1 by (rewrite Rabs_left; lra). rdec. simpl. rdec; reflexivity. Qed.
+Proof. unfold hcco_rule_of, hcco_fit_raw, isclose0, ex_lff. rn. rsolve. simpl. rsolve. reflexivity. Qed.
 Example hcco_rule_b_reached : @hcco_rule_of RNum (2, 1, 3/2, 3/2) ex_lff = RuleNegSlopeLow.
-Proof. unfold hcco_rule_of, hcco_fit_raw, isclose0, ex_lff. rn.
-  replace (Rabs (0 - -1)) with 1 by (rewrite Rabs_right; lra). rdec.
-  replace (Rabs ((1 - 2) / (0 - -1))) with 1 by (rewrite Rabs_left; lra). rdec. simpl. rdec; reflexivity. Qed.
+Proof. unfold hcco_rule_of, hcco_fit_raw, isclose0, ex_lff. rn. rsolve. simpl. rsolve. reflexivity. Qed.
 Example hcco_rule_c_reached : @hcco_rule_of RNum (1, 2, 0, 0) ex_lff = RuleFlat.
-Proof. unfold hcco_rule_of, hcco_fit_raw, isclose0, ex_lff. rn.
-  replace (Rabs (0 - -1)) with 1 by (rewrite Rabs_right; lra). rdec.
-  replace (Rabs ((2 - 1) / (0 - -1))) with 1 by (rewrite Rabs_right; lra). rdec. simpl. rdec; reflexivity. Qed.
+Proof. unfold hcco_rule_of, hcco_fit_raw, isclose0, ex_lff. rn. rsolve. simpl. rsolve. reflexivity. Qed.
 (* equal idle and approach flows: slope forced to 0, hence rule (c) *)
 Example hcco_equal_flows_flat : @hcco_rule_of RNum (2, 1, 0, 0) (0, 0, 1, 2) = RuleFlat.
-Proof. unfold hcco_rule_of, hcco_fit_raw, isclose0. rn.
-  replace (Rabs (0 - 0)) with 0 by (rewrite Rabs_right; lra). rdec.
-  replace (Rabs 0) with 0 by (rewrite Rabs_R0; lra). rdec. simpl. rdec; reflexivity. Qed.
+Proof. unfold hcco_rule_of, hcco_fit_raw, isclose0. rn. rsolve. simpl. rsolve. reflexivity. Qed.
 
 (* ------------------------------------------------------------------------------------------------ *)
 (* SOx                                                                                                *)
@@ -347,7 +355,7 @@ Proof. intros Hf [H0 H1]. unfold sox, mw_S, mw_SO2, mw_SO4. rn.
 
 Lemma sox_linear_in_sulfur (k fsc eps : R) :
   let '(sx, so2, so4) := @sox RNum fsc eps in @sox RNum (k * fsc) eps = (k * sx, k * so2, k * so4).
-Proof. unfold sox, mw_S, mw_SO2, mw_SO4. rn. repeat f_equal; field. Qed.
+Proof. unfold sox, mw_S, mw_SO2, mw_SO4. rn. tuple_eq; field. Qed.
 
 (* ------------------------------------------------------------------------------------------------ *)
 (* piecewise-linear interpolation                                                                     *)
@@ -361,13 +369,12 @@ Definition scale_ys (k : R) (l : pts) : pts := map (fun p => (fst p, k * snd p))
 Lemma interp_from_scales k x x0 y0 l :
   @interp_from RNum x x0 (k * y0) (scale_ys k l) = k * @interp_from RNum x x0 y0 l.
 Proof. revert x0 y0. induction l as [ | [x1 y1] r IH]; intros; simpl; [reflexivity | ].
-  destruct (x <? x1)%num; [rnum; unfold Rdiv; ring | apply IH]. Qed.
+  rnum. destruct (Rltb x x1); [unfold Rdiv; ring | apply IH]. Qed.
 
 Lemma ninterp_scales k x l : @ninterp RNum x (scale_ys k l) = k * @ninterp RNum x l.
 Proof. destruct l as [ | [x0 y0] r]; simpl; [rnum; ring | ].
-  destruct (x =? x)%num eqn:E.
-  - destruct (x <=? x0)%num; [reflexivity | apply interp_from_scales].
-  - exfalso. revert E. rnum. intro E. apply Reqb_false in E. congruence. Qed.
+  rnum. rewrite (proj2 (Reqb_true x x) eq_refl).
+  destruct (Rleb x x0); [reflexivity | apply interp_from_scales]. Qed.
 
 Lemma interp_from_ge b x x0 y0 l :
   x0 <= x -> b <= y0 -> sorted_from x0 l -> ys_ge b l -> b <= @interp_from RNum x x0 y0 l.
@@ -391,8 +398,7 @@ Lemma ninterp_ge b x l : l <> [] ->
   match l with [] => True | (x0, y0) :: r => sorted_from x0 r end -> ys_ge b l -> b <= @ninterp RNum x l.
 Proof. destruct l as [ | [x0 y0] r]; [congruence | ]. intros _ Hs Hb. simpl.
   inversion Hb as [ | ? ? Hb0 Hbr]; subst. simpl in Hb0.
-  replace (x =? x)%num with true by (rnum; symmetry; apply Reqb_true; reflexivity).
-  rnum. unfold Rleb. destruct (Rle_dec x x0); [assumption | ].
+  rnum. rewrite (proj2 (Reqb_true x x) eq_refl). unfold Rleb. destruct (Rle_dec x x0); [assumption | ].
   apply interp_from_ge; try assumption; lra. Qed.
 
 (* ------------------------------------------------------------------------------------------------ *)
@@ -400,16 +406,17 @@ Proof. destruct l as [ | [x0 y0] r]; [congruence | ]. intros _ Hs Hb. simpl.
 (* ------------------------------------------------------------------------------------------------ *)
 Lemma foa3_delta_bounds t : 617 / 100 <= @ninterp RNum t (@foa3_nodes RNum).
 Proof. apply ninterp_ge; [discriminate | | ].
-  - unfold foa3_nodes. rn. simpl. lra.
-  - unfold foa3_nodes, ys_ge. rn. repeat constructor; simpl; lra. Qed.
+  - unfold foa3_nodes. rn. simpl. repeat split; lra.
+  - unfold foa3_nodes, ys_ge. rn. repeat (apply Forall_cons; [simpl; lra | ]). apply Forall_nil. Qed.
 
 Lemma pmvol_foa3_scales k t hc :
   @pmvol_foa3 RNum t (k * hc) = (k * fst (@pmvol_foa3 RNum t hc), k * snd (@pmvol_foa3 RNum t hc)).
 Proof. unfold pmvol_foa3. simpl. rn. f_equal; unfold Rdiv; ring. Qed.
 
 Lemma pmvol_foa3_nonneg t hc : 0 <= hc -> 0 <= fst (@pmvol_foa3 RNum t hc) /\ 0 <= snd (@pmvol_foa3 RNum t hc).
-Proof. intros H. pose proof (foa3_delta_bounds t) as Hd. unfold pmvol_foa3. simpl. rn.
-  assert (0 <= @ninterp RNum t (@foa3_nodes RNum) * hc / (1000 / 1)).
+Proof. intros H. pose proof (foa3_delta_bounds t) as Hd. unfold pmvol_foa3.
+  asR (@ninterp RNum t (@foa3_nodes RNum)) d. simpl. rn.
+  assert (0 <= d * hc / (1000 / 1)).
   { apply Rmult_le_pos; [apply Rmult_le_pos; lra | lra]. }
   split; assumption. Qed.
 
@@ -439,34 +446,36 @@ Lemma afr_pos m : 0 < @afr RNum m.
 Proof. destruct m; unfold afr; rn; lra. Qed.
 
 Lemma scope11_Q_nonneg m bpr et : 0 <= bpr -> 0 <= @scope11_Q RNum m bpr et.
-Proof. intros Hb. pose proof (afr_pos m). unfold scope11_Q.
+Proof. intros Hb. pose proof (afr_pos m) as Ha. unfold scope11_Q. asR (@afr RNum m) av.
   destruct (String.eqb et "MTF"); [ | destruct (String.eqb et "TF")]; rn; try lra.
-  assert (0 <= 97 / 125 * @afr RNum m * (1 / 1 + bpr)) by (apply Rmult_le_pos; [apply Rmult_le_pos |]; lra).
+  assert (0 <= 97 / 125 * av * (1 / 1 + bpr)) by (apply Rmult_le_pos; [apply Rmult_le_pos |]; lra).
   lra. Qed.
 
 Lemma scope11_mode_nonneg sn m bpr et : 0 <= bpr -> 0 <= @scope11_mode RNum sn m bpr et.
 Proof. intros Hb. unfold scope11_mode.
-  destruct ((sn =? _)%num || (sn =? _)%num); [rnum; lra | ].
+  destruct (@eqb RNum sn _ || @eqb RNum sn _); [rnum; lra | ].
   set (sn' := @nmin RNum sn _).
   pose proof (scope11_cbc_pos sn') as Hc.
-  assert (Hbp : 0 <= (if String.eqb et "MTF" then bpr else zero)%num) by (destruct (String.eqb et "MTF"); rnum; lra).
+  assert (Hbp : 0 <= (if String.eqb et "MTF" then bpr else @zero RNum)) by (destruct (String.eqb et "MTF"); rnum; lra).
   pose proof (scope11_kslm_pos _ _ Hc Hbp) as Hk.
   pose proof (scope11_Q_nonneg m bpr et Hb) as HQ.
-  rn. apply Rmult_le_pos; [ | lra]. apply Rmult_le_pos; [ | assumption].
+  asR (@scope11_cbc RNum sn') cv. asR (@scope11_Q RNum m bpr et) qv.
+  rn. match goal with |- 0 <= ?t * _ * _ / _ => asR t kv end.
+  apply Rmult_le_pos; [ | lra]. apply Rmult_le_pos; [ | assumption].
   apply Rmult_le_pos; lra. Qed.
 
 (* ------------------------------------------------------------------------------------------------ *)
 (* MEEM (partial)                                                                                     *)
 (* ------------------------------------------------------------------------------------------------ *)
-Lemma meem_adjust_scales k ref P3 P3ref : @meem_adjust RNum (k * ref) P3 P3ref = k * @meem_adjust RNum ref P3 P3ref.
+Lemma meem_adjust_scales k ref (P3 P3ref : R) : @meem_adjust RNum (k * ref) P3 P3ref = k * @meem_adjust RNum ref P3 P3ref.
 Proof. unfold meem_adjust. rn. ring. Qed.
 
-Lemma meem_adjust_pos ref P3 P3ref : 0 < ref -> 0 < @meem_adjust RNum ref P3 P3ref.
+Lemma meem_adjust_pos ref (P3 P3ref : R) : 0 < ref -> 0 < @meem_adjust RNum ref P3 P3ref.
 Proof. intros. unfold meem_adjust. rn.
   apply Rmult_lt_0_compat; [apply Rmult_lt_0_compat; [lra | apply exp_pos] | apply exp_pos]. Qed.
 
 (* the number index is the reference number index times the same altitude factor, whatever the mass index *)
-Lemma meem_number_index ref_num ref_mass P3 P3ref : 0 < ref_mass ->
+Lemma meem_number_index ref_num ref_mass (P3 P3ref : R) : 0 < ref_mass ->
   ref_num * @meem_adjust RNum ref_mass P3 P3ref / (@q RNum 1 1000 * ref_mass) =
   ref_num * (@npow RNum (P3 / P3ref) (@q RNum 27 20) * @npow RNum (@q RNum 11 10) (@q RNum 5 2)).
 Proof. intros. unfold meem_adjust. rn. field. lra. Qed.
@@ -482,7 +491,7 @@ Proof. destruct v as [[[a0 a1] a2] a3]. destruct kind; simpl; rn; repeat split; 
 Lemma meem_grid_ge b v vmax kind : (let '(a0, a1, a2, a3) := v in b <= a0 /\ b <= a1 /\ b <= a2 /\ b <= a3) ->
   b <= vmax -> ys_ge b (@meem_grid RNum v vmax kind).
 Proof. destruct v as [[[a0 a1] a2] a3]. intros (H0 & H1 & H2 & H3) Hm.
-  destruct kind; unfold ys_ge; simpl; repeat constructor; simpl; assumption. Qed.
+  destruct kind; unfold ys_ge; simpl; repeat (apply Forall_cons; [simpl; assumption | ]); apply Forall_nil. Qed.
 
 Lemma meem_reference_ge b F v vmax kind : (let '(a0, a1, a2, a3) := v in b <= a0 /\ b <= a1 /\ b <= a2 /\ b <= a3) ->
   b <= vmax -> b <= @ninterp RNum F (@meem_grid RNum v vmax kind).
@@ -511,4 +520,19 @@ Proof. intros Hpr Hcase Hmax. unfold meem_p3_ratio, meem_pc, meem_lin. rn.
 Lemma meem_low_climb_negative_pressure :
   exists pr hmax hp h, 1 < pr /\ 0 <= hp < h /\ h <= hmax /\ @meem_p3_ratio RNum pr hmax hp h < 0.
 Proof. exists 25, 2500, 0, 1000. repeat split; try lra.
-  unfold meem_p3_ratio, meem_pc, meem_lin. rn. rdec. lra. Qed.
+  unfold meem_p3_ratio, meem_pc, meem_lin. rn. rsolve. lra. Qed.
+
+(* ------------------------------------------------------------------------------------------------ *)
+(* non-vacuity of the hypotheses used in props/C12_Props.v                                             *)
+(* ------------------------------------------------------------------------------------------------ *)
+Lemma ffm2_hyps_satisfiable : 0 <= (1:R) /\ 0 < (22632:R) /\ 0 < (101325:R) /\ 0 < (2:R).
+Proof. repeat split; lra. Qed.
+Lemma nox_hyps_satisfiable : 0 < (2:R) /\ tpos (30, 25, 20, 18).
+Proof. unfold tpos. repeat split; lra. Qed.
+Lemma sox_hyps_satisfiable : 0 <= (600:R) /\ 0 <= (1/50:R) <= 1.
+Proof. repeat split; lra. Qed.
+Lemma thrust_cat_examples :
+  @thrust_cat RNum (1/10) (2/10, 6/10, 15/10, 2) = Idle /\ @thrust_cat RNum 1 (2/10, 6/10, 15/10, 2) = Approach /\
+  @thrust_cat RNum 3 (2/10, 6/10, 15/10, 2) = Climb /\
+  @thrust_cat RNum (1/2) (1, 1, 1/10, 2) = Idle /\ @thrust_cat RNum (3/2) (1, 1, 1/10, 2) = Climb.
+Proof. unfold thrust_cat, low_limit, approach_limit, tget. rn. repeat split; rsolve; reflexivity. Qed.
